@@ -102,7 +102,7 @@ type faultSink struct {
 	mode     string // "once" | "sticky" | "short"
 	api      string // API call currently executing (set by the harness)
 	log      []sinkWrite
-	faultAPI []string // API calls during which an injected failure was returned
+	faultAPI []string    // API calls during which an injected failure was returned
 	inner    func(k int) // optional hook run inside every write (C13 engine b)
 }
 
